@@ -777,4 +777,120 @@ theorem extentAt (ext : Bool) (d : Nat) : ExtentAt ext d := by
   induction d using Nat.strongRecOn with
   | _ d ih => exact extent_step ext d ih
 
+
+/-! ## The slice loop and the reader loop -/
+
+theorem readerLoop_nil (ext : Bool) (d : Nat) : readerLoop ext d [] = ([], .ok) := by
+  rw [readerLoop.eq_def]; simp
+
+theorem readerLoop_ok (ext : Bool) (d : Nat) {bs : List Nat} {v : MVal} {rest : List Nat}
+    (h : decodeG ext d bs = .ok (v, rest)) :
+    readerLoop ext d bs = (v :: (readerLoop ext d rest).1, (readerLoop ext d rest).2) := by
+  have hne : bs.isEmpty = false := by
+    cases bs with
+    | nil => unfold decodeG at h; cases h
+    | cons _ _ => rfl
+  rw [readerLoop.eq_def]
+  simp only [hne, Bool.false_eq_true, ↓reduceIte]
+  split
+  · rename_i e he; rw [h] at he; cases he
+  · rename_i v' rest' he; rw [h] at he; injection he with he; injection he with h1 h2
+    subst h1; subst h2; rfl
+
+theorem readerLoop_err (ext : Bool) (d : Nat) {bs : List Nat} {e : DErr}
+    (hne : bs ≠ []) (h : decodeG ext d bs = .error e) :
+    readerLoop ext d bs = ([], .decErr e) := by
+  have hne' : bs.isEmpty = false := by
+    cases bs with
+    | nil => exact absurd rfl hne
+    | cons _ _ => rfl
+  rw [readerLoop.eq_def]
+  simp only [hne', Bool.false_eq_true, ↓reduceIte]
+  split
+  · rename_i e' he; rw [h] at he; injection he with he; subst he; rfl
+  · rename_i v' rest' he; rw [h] at he; cases he
+
+
+theorem sliceLoop_nil (ext : Bool) (l d : Nat) : sliceLoop ext l d [] = ([], .ok) := by
+  rw [sliceLoop.eq_def]; simp
+
+theorem sliceLoop_cons (ext : Bool) (l d : Nat) {rest : List Nat} (hne : rest ≠ []) :
+    sliceLoop ext l d rest =
+      match nextValueSize rest l with
+      | .ok n =>
+        if n ≤ rest.length then
+          match decodeG ext d (rest.take n) with
+          | .error e => ([], .decErr e)
+          | .ok (v, _) =>
+            (v :: (sliceLoop ext l d (rest.drop n)).1, (sliceLoop ext l d (rest.drop n)).2)
+        else ([], .panicSplitAt)
+      | e => ([], .sizeErr e) := by
+  have hne' : rest.isEmpty = false := by
+    cases rest with
+    | nil => exact absurd rfl hne
+    | cons _ _ => rfl
+  rw [sliceLoop.eq_def]
+  simp only [hne', Bool.false_eq_true, ↓reduceIte]
+  cases hs : nextValueSize rest l with
+  | ok n =>
+    simp only
+    by_cases hn : n ≤ rest.length
+    · simp only [hn, ↓reduceIte]
+      split
+      · rename_i e he; simp only [he]
+      · rename_i v lo he; simp only [he]
+    · simp only [hn, ↓reduceIte]
+  | truncated => rfl
+  | invalidMarker => rfl
+  | depthExceeded => rfl
+  | panic s => rfl
+
+/-- The two arms of `msgpack::transcode` translate the same documents and end
+with the same verdict, for every input. -/
+theorem loops_agree (ext : Bool) (l d : Nat) (hdl : d ≤ l) (hl : 1 ≤ l) (bs : List Nat) :
+    (sliceLoop ext l d bs).1 = (readerLoop ext d bs).1 ∧
+    ((sliceLoop ext l d bs).2 = .ok ↔ (readerLoop ext d bs).2 = .ok) ∧
+    (sliceLoop ext l d bs).2 ≠ .panicSplitAt ∧
+    (∀ s, (sliceLoop ext l d bs).2 ≠ .sizeErr (.panic s)) := by
+  induction hlen : bs.length using Nat.strongRecOn generalizing bs with
+  | _ k ih =>
+    cases bs with
+    | nil => simp [sliceLoop_nil, readerLoop_nil]
+    | cons b t =>
+      have hne : (b :: t) ≠ [] := by simp
+      cases hdec : decodeG ext d (b :: t) with
+      | error e =>
+        rw [readerLoop_err ext d hne hdec, sliceLoop_cons ext l d hne]
+        cases hs : nextValueSize (b :: t) l with
+        | ok n =>
+          have hn := (safeAt l (b :: t)).2 n hs
+          simp only [hn, ↓reduceIte]
+          cases hd2 : decodeG ext d (List.take n (b :: t)) with
+          | error e' => simp
+          | ok p =>
+            obtain ⟨v', lo⟩ := p
+            exfalso
+            obtain ⟨u, e1, g⟩ := decodeG_local ext d _ _ _ hd2
+            have := g (lo ++ List.drop n (b :: t))
+            rw [← List.append_assoc, ← e1, List.take_append_drop, hdec] at this
+            cases this
+        | truncated => simp
+        | invalidMarker => simp
+        | depthExceeded => simp
+        | panic s => exact absurd hs ((safeAt l (b :: t)).1 s)
+      | ok p =>
+        obtain ⟨v, rest⟩ := p
+        have hsz := extentAt ext d l hdl hl _ _ _ hdec
+        have hlt := decodeG_lt ext d _ _ _ hdec
+        obtain ⟨u, e1, g⟩ := decodeG_local ext d _ _ _ hdec
+        have hn : (b :: t).length - rest.length = u.length := by rw [e1]; simp
+        have htake : List.take u.length (b :: t) = u := by rw [e1]; exact List.take_left' rfl
+        have hdrop : List.drop u.length (b :: t) = rest := by rw [e1]; exact List.drop_left' rfl
+        have hdu : decodeG ext d u = .ok (v, []) := by simpa using g []
+        have hule : u.length ≤ (b :: t).length := by rw [e1]; simp
+        rw [readerLoop_ok ext d hdec, sliceLoop_cons ext l d hne, hsz, hn]
+        simp only [hule, ↓reduceIte, htake, hdu, hdrop]
+        obtain ⟨i1, i2, i3, i4⟩ := ih rest.length (by omega) rest rfl
+        exact ⟨by rw [i1], i2, i3, i4⟩
+
 end Xt.Msgpack
